@@ -72,7 +72,26 @@ def run_main(tool, argv, stdin_text='', rnd=0):
 
 
 def _latex_ok(text):
-    return text.count('\\begin{align}') == text.count('\\end{align}') >= 1 and ('\\begin{document}' not in text or text.rstrip().endswith('\\end{document}'))
+    if not (text.count('\\begin{align}') == text.count('\\end{align}') >= 1 and ('\\begin{document}' not in text or text.rstrip().endswith('\\end{document}'))):
+        return False
+    # rows: '\top' stands for the formula without clauses and is then the only row; a page holds 1..35 rows
+    from vlib.xh.c12 import _latex_rows
+    rows, nblocks, nbreaks = _latex_rows(text)
+    if not rows:
+        return False
+    if any(r == '\\top' for r, _ in rows) and len(rows) != 1:
+        return False
+    per = {}
+    for r, b in rows:
+        if r == '':
+            return False
+        per[b] = per.get(b, 0) + 1
+    if '\\begin{document}' in text and (len(per) != nblocks or any(v > 35 for v in per.values())):
+        return False
+    m = re.search(r'with (\d+) variables and(?: and)? (\d+) (?:clauses|constraints)', text)
+    if m and len(rows) != max(int(m.group(2)), 1):
+        return False
+    return True
 
 
 def classify(tool, argv, code, out, err):
@@ -2181,3 +2200,24 @@ def h_e_oserrors(ci: int, ei: int) -> bool:
     post: _
     """
     return untraced(_oserrors, pick(ci, 0, len(OS_CMDS) - 1), pick(ei, 0, 4))
+
+
+# ------------------------------------------------ LaTeX documents around the page size
+LATEX_CMDS = [('cnfgen', ['-of', 'latex', 'and', 20, 15]), ('cnfgen', ['-of', 'latex', 'and', 35, 35]), ('cnfgen', ['-l', 'and', 30, 5]),
+              ('pbgen', ['-of', 'latex', 'and', 30, 5]), ('cnfgen', ['-of', 'latex', 'and', 36, 0]), ('cnfgen', ['-of', 'latex', 'and', 0, 0]),
+              ('cnfgen', ['-of', 'latex', 'and', 34, 0]), ('cnfgen', ['-q', '-of', 'latex', 'and', 35, 0]), ('pbgen', ['-of', 'latex', 'php', 7, 5]),
+              ('cnfgen', ['-of', 'latex', 'and', 35, 0, '-T', 'xor', 2]), ('cnfgen', ['-of', 'latex', 'php', 5, 4]), ('cnfgen', ['-of', 'latex', 'op', 5])]
+
+
+def _latex_pages(ci):
+    tool, argv = LATEX_CMDS[ci]
+    code, out, err = run_main(tool, argv)
+    return code == 0 and classify(tool, argv, code, out, err)
+
+
+def h_e_latex_pages(ci: int) -> bool:
+    """
+    pre: 0 <= ci <= 11
+    post: _
+    """
+    return untraced(_latex_pages, pick(ci, 0, 11))
